@@ -169,6 +169,78 @@ pub fn check_program(out: &mut Out, ast: &Ast, model: &Model, r: &mut Rng) {
             );
         }
     }
+    // the tree, already evaluated through both paths, is edited through its mutable iterators (functions and
+    // variables renamed): both paths must follow the edit, like a tree built from the edited program
+    if r.chance(1, 3) {
+        let fmap = |n: &str| -> String {
+            match n {
+                "min" => "max",
+                "max" => "min",
+                "len" => "typeof",
+                "typeof" => "len",
+                "t" => "id",
+                "id" => "t",
+                "b" => "s",
+                "s" => "b",
+                "math::floor" => "math::ceil",
+                "math::ceil" => "math::floor",
+                other => other,
+            }
+            .to_string()
+        };
+        let vmap = |n: &str| -> String {
+            match n {
+                "x" => "y",
+                "y" => "x",
+                "x0" => "x1",
+                "x1" => "x0",
+                other => other,
+            }
+            .to_string()
+        };
+        fn rename(a: &Ast, f: &dyn Fn(&str) -> String, v: &dyn Fn(&str) -> String) -> Ast {
+            match a {
+                Ast::Read(n) => Ast::Read(v(n)),
+                Ast::Assign(o, t, x) => Ast::Assign(o, v(t), Box::new(rename(x, f, v))),
+                Ast::Call(n, x) => Ast::Call(f(n), Box::new(rename(x, f, v))),
+                Ast::Un(o, x) => Ast::Un(o, Box::new(rename(x, f, v))),
+                Ast::Group(x) => Ast::Group(Box::new(rename(x, f, v))),
+                Ast::Bin(o, l, rr) => Ast::Bin(o, Box::new(rename(l, f, v)), Box::new(rename(rr, f, v))),
+                Ast::Tuple(xs) => Ast::Tuple(xs.iter().map(|x| rename(x, f, v)).collect()),
+                Ast::Chain(xs) => Ast::Chain(xs.iter().map(|x| rename(x, f, v)).collect()),
+                other => other.clone(),
+            }
+        }
+        let ast2 = rename(ast, &fmap, &vmap);
+        let mut tree2 = tree;
+        for n in tree2.iter_function_identifiers_mut() {
+            *n = fmap(n);
+        }
+        for n in tree2.iter_variable_identifiers_mut() {
+            *n = vmap(n);
+        }
+        let src2 = render_spaced(&render_ast(&ast2, Parens::Minimal, None, true));
+        let r2_mut = exec::run_ref(&ast2, model, true);
+        let r2_imm = exec::run_ref(&ast2, model, false);
+        if !matches!(r2_mut.result, Err(RErr::Unclaimed(_))) && !matches!(r2_imm.result, Err(RErr::Unclaimed(_))) {
+            let j_imm = exec::run_impl(&src2, Some(&tree2), model, Entry::TreeImm, false);
+            let j_mut = exec::run_impl(&src2, Some(&tree2), model, Entry::TreeMut, false);
+            out.evals(2);
+            out.count("evaluated trees renamed through the mutable iterators");
+            let ok_imm = j_imm.got.lifted().map_or(false, |l| outcome_matches(&r2_imm.result, &l));
+            let ok_mut = j_mut.got.lifted().map_or(false, |l| outcome_matches(&r2_mut.result, &l));
+            let agree = r2_mut.run.assign_reached || j_imm.got.same(&j_mut.got);
+            if !ok_imm || !ok_mut || !agree {
+                out.violation(
+                    "readonly/after-renaming-an-evaluated-tree",
+                    format!("{}   renamed through iter_function_identifiers_mut / iter_variable_identifiers_mut to   {}   [initial context {}]", src, src2, model.show_vars()),
+                    format!("read-only {} / mutable {}", exec::show_ref_result(&r2_imm.result), exec::show_ref_result(&r2_mut.result)),
+                    format!("read-only {} / mutable {}", j_imm.got.show(), j_mut.got.show()),
+                );
+            }
+        }
+    }
+
 }
 
 struct Exhaustive {
@@ -299,7 +371,16 @@ impl Phase for AnyTokens {
             }
             t
         };
-        let src = render_spaced(&toks);
+        let mut src = render_spaced(&toks);
+        if idx >= space && r.chance(1, 5) {
+            // a sub-expression that fails at run time next to one that lacks an operand: whichever the evaluation
+            // reaches first decides, on both paths alike
+            let failing = *r.pick(&["fail ( 1 )", "nosuch", "1 / 0", "u7", "nofn ( 2 )", "t ( 1 ) + true", "x = fail ( 3 )"]);
+            let lacking = *r.pick(&["( 2 * )", "( - )", "( ! )", "( 3 + )", "( a < )", "( 4 ^ )", "t ( 5 % )", "( true && )", "( , ) + ( / 2 )"]);
+            let sep = *r.pick(&["+", ";", ",", "*", "==", "&&"]);
+            src = if r.chance(2, 3) { format!("{} {} {}", failing, sep, lacking) } else { format!("{} {} {}", lacking, sep, failing) };
+            out.count("run-time failure next to a missing operand");
+        }
         out.begin(|| src.clone());
         let tree = match api::build(&src) {
             Built::Tree(t) => t,
